@@ -137,15 +137,24 @@ def make_plan(abi, src, rng, addrs, per_fn, n_random):
         flits = source_literals(fn_source(src, fn["name"])) or lits
         sweeps = [_sweep_values(i, flits) for i in fn["inputs"]]
         n_sweep = min(max([len(s) for s in sweeps if s] or [0]), per_fn * 4)
+        ints = [j for j, sw in enumerate(sweeps) if sw]
+        pairs = None
+        if len(ints) == 2:
+            # two integer arguments: all pairs of the 7 smallest-magnitude boundary values of each
+            pairs = [(x, y) for x in sweeps[ints[0]][:7] for y in sweeps[ints[1]][:7]]
+            n_sweep = len(pairs)
         seen = set()
         for k in range(per_fn + n_sweep):
             try:
                 vals = [boundary_value(i, rng, addrs, flits) for i in fn["inputs"]]
                 if k < n_sweep:
                     # systematic part: the k-th sweep value in every integer position that has one (other positions random)
-                    for j, sw in enumerate(sweeps):
-                        if sw and (k < len(sw)):
-                            vals[j] = sw[k]
+                    if pairs is not None:
+                        vals[ints[0]], vals[ints[1]] = pairs[k]
+                    else:
+                        for j, sw in enumerate(sweeps):
+                            if sw and (k < len(sw)):
+                                vals[j] = sw[k]
                 data = R.selector(fn) + R.encode_args(fn["inputs"], vals)
             except Exception:  # noqa
                 vals, data = None, R.selector(fn)
